@@ -121,9 +121,22 @@ CHECKS = {
                 "boundaries are not generated.",
         "technique": "Coq proof (linear/nonlinear arithmetic over Q, list folds) + differential correspondence on exactly representable coordinates",
     },
+    "C16": {
+        "text": "Theorems: for every interleaving of atom creations and clonings across any number of threads the identities issued by the shared "
+                "counter are pairwise distinct, consecutive from the start value, and every request is served (induction over the schedule); for every "
+                "well-formed structure (distinct identities, bonds between present atoms) and every start of fresh identities the clone with translated "
+                "bond table has the same number of atoms and the same bonded positions, stays well-formed, and no bond is lost; after removals the listed "
+                "bonds are those whose atoms remain. The derived Clone of the shipped code is refuted by a two-atom witness (repaired by a fix: commit). "
+                "Correspondence: clone / serde / second read on structures with bonds from SSBOND, add_bond and connect_atoms, internal identities read "
+                "through serde_json, 1..16 threads.",
+        "design_ref": "DESIGN.md section 6 C16",
+        "note": "Trusted: Coq kernel, extraction, harness; atomicity of fetch_add(SeqCst) (real memory ordering is exercised, not modelled); serde_json. "
+                "Open known finding: a serde copy re-uses the identities of the original.",
+        "technique": "Coq proof (induction over schedules; clone refinement on the identity skeleton) + differential correspondence incl. threads",
+    },
 }
 
 NOT_APPLICABLE = [
     {"property_id": p, "reason": PENDING}
-    for p in ["C01", "C02", "C03", "C04", "C05", "C06", "C15", "C16"]
+    for p in ["C01", "C02", "C03", "C04", "C05", "C06", "C15"]
 ]
